@@ -19,13 +19,7 @@ use crate::val::{hex, parse_val, show, unhex};
 use borsh::schema::BorshSchemaContainer;
 use borsh::{BorshDeserialize, BorshSchema, BorshSerialize};
 
-fn maxsize_s(c: &BorshSchemaContainer) -> String {
-    match std::panic::catch_unwind(std::panic::AssertUnwindSafe(|| c.max_serialized_size())) {
-        Err(_) => "panic".to_string(),
-        Ok(Ok(n)) => format!("ok {}", n),
-        Ok(Err(e)) => format!("err {:?}", e).split('(').next().unwrap_or("err").to_string(),
-    }
-}
+use crate::ext_schema::{maxsize_s, mserr_s};
 
 pub fn run_schema<T: Model + BorshSerialize + BorshDeserialize + BorshSchema>(op: &str, args: &[&str]) -> String {
     match (op, args) {
@@ -40,7 +34,7 @@ pub fn run_schema<T: Model + BorshSerialize + BorshDeserialize + BorshSchema>(op
             let h = match std::panic::catch_unwind(|| borsh::max_serialized_size::<T>()) {
                 Err(_) => "panic".to_string(),
                 Ok(Ok(n)) => format!("ok {}", n),
-                Ok(Err(e)) => format!("err {:?}", e).split('(').next().unwrap_or("err").to_string(),
+                Ok(Err(e)) => mserr_s(e),
             };
             format!("ok {}\t{}\t{}", same, h, maxsize_s(&c))
         }
